@@ -135,7 +135,16 @@ static int expect_step(int r, const item_t * it, int * codes, int * ncodes) {
     *ncodes = 0;
     switch (r) {
         case VR_INT32: case VR_UINT32: case VR_INT64: case VR_UINT64:
-            if (t == IT_DEC) return it->is_integer ? 1 : -1; /* fraction/exponent given to an integer reader: only clause (i) applies */
+            if (t == IT_DEC) {
+                /* fraction/exponent given to an integer reader: only clause (i) applies. So it does for an integer the reader's type cannot hold
+                 * (-3 read as unsigned, 4294967295 read as int32): the statement names no error for it and does not promise delivery either -
+                 * wrapped, saturated or refused with an error of its own are all "not a silent failure" */
+                if (!it->is_integer) return -1;
+                if (r == VR_INT32 && (it->ival < INT32_MIN || it->ival > INT32_MAX)) return -1;
+                if (r == VR_UINT32 && (it->ival < 0 || it->ival > (int64_t) UINT32_MAX)) return -1;
+                if (r == VR_UINT64 && it->ival < 0) return -1;
+                return 1;
+            }
             if (isnum) return 1;
             if (suff) { codes[(*ncodes)++] = -138; return 0; }
             codes[(*ncodes)++] = -104; return 0;
